@@ -12,7 +12,7 @@ import dfols.trust_region as TR  # noqa: E402
 PROP = "C12"
 LEVEL = "exploration"
 RULE = ("Hypothesis composite strategy over direct calls trsbox(xopt, g, H, sl, su, delta): n in 1..8; g on a dyadic/decimal "
-        "grid times 10^e (6 decades, zero components allowed); H in {2B'B full rank, rank deficient, zero, indefinite B+B'} "
+        "grid times 10^e (e in -3..3, plus -14, -12, -10, -8, -6 and 6: gradients next to a zero-residual solution; zero components allowed); H in {2B'B full rank, rank deficient, zero, indefinite B+B'} "
         "times 10^e (5 decades); delta over 8 decades; each bound side drawn from {active, 1e-12*delta, 0.1, 0.5, 1, 10 "
         "times delta away, absent (1e20)}; xopt up to 1e3 in size. Non-trivial = at least one bound active at the returned "
         "point, or the step is on the trust-region boundary, or H is not full-rank PSD. Distinct = SHA-1 of the case JSON.")
